@@ -254,13 +254,17 @@ func projVal(got any, d jDef, km kindMap, tb *vtable) jVal {
 		if s == "" {
 			return jVal{IDs: []string{}}
 		}
-		return jVal{IDs: []string{s}}
+		return jVal{IDs: []string{asciiID(s)}}
 	}
 	ss, ok := got.([]string)
 	if !ok {
 		return jVal{R: -1, IDs: []string{}}
 	}
-	return jVal{IDs: append([]string{}, ss...)}
+	out := make([]string, len(ss))
+	for i, x := range ss {
+		out[i] = asciiID(x)
+	}
+	return jVal{IDs: out}
 }
 
 // projVals reads every exposed field of a real resource.
@@ -275,6 +279,16 @@ func projVals(res jsonapi.Resource, km kindMap, tb *vtable) (defMap, valMap) {
 		vals[f] = projVal(res.Get(f), d, km, tb)
 	}
 	return defs, vals
+}
+
+// asciiID: ids cross the TLC boundary as ASCII tokens; anything else is shown as hex
+func asciiID(s string) string {
+	for _, c := range s {
+		if c < 0x21 || c > 0x7e || c == '"' || c == '\\' {
+			return fmt.Sprintf("?%x", s)
+		}
+	}
+	return s
 }
 
 func sortedIDs(ids []string) []string {
